@@ -6,6 +6,12 @@ ALL = ["C%02d" % i for i in range(1, 21)]
 
 WRAP_NOTE = "Shaped runs are synthetic (generator asserts the shaper output contract); break opportunities come from the segmenter (C06). Negative letter spacing is checked for conservation only (measure not monotone)."
 CHECKS = {
+ "C08": dict(
+   level="exploration",
+   text="(real) every text over a 9-symbol bidi alphabet (letters of both directions on two faces, digit, space, RLI/LRI/PDI) up to the tier's length, both default directions, itemised by the real Segmenter.Split, wrapped at every critical width with/without truncator (both truncator directions); (synth) the whole C02 enumeration of synthetic runs with arbitrary direction vectors. Each line's VisualIndex is compared with UAX#9 rule L2 on reference embedding levels; the trimmed glyph must be the visually last one.",
+   note="Reference levels: unexported core of golang.org/x/text/unicode/bidi (port of the Unicode reference implementation) via go:linkname. Known finding: runs at level >= paragraph+2 (Output carries only the parity) — matched by mechanism (observed order == parity-only order), any other wrong order is a violation.",
+   technique="bounded exhaustive enumeration of inputs against a reference implementation of rule L2 (E1)",
+   design="1/C08", engine="E1 enum"),
  "C02": dict(
    level="exploration",
    text="All paragraphs up to the tier's length over a 9-symbol line-breaking alphabet x all run splits, direction vectors and cluster structures x all critical widths x policies, with truncation, trimming, spacing, iterator and driver axes crossed one at a time; every returned line is checked for coverage, glyph identity (unique ids), cluster integrity and advance = sum of glyph advances.",
